@@ -1,7 +1,7 @@
 use crate::base::{MetricEvent, DEFAULT_STATISTIC_MAX_RT};
 use enum_map::EnumMap;
 use std::fmt;
-use std::sync::atomic::{AtomicU32, AtomicU64, Ordering};
+use crate::vsync::atomic::{AtomicU32, AtomicU64, Ordering};
 
 /// use atomic types to ensure metric's internal mutability
 /// otherwise, exclusive Mutex would be necessary on the LeapArray Arc among threads
